@@ -249,6 +249,20 @@ const MAX_OCTAVE: u32 = 10;
 
 const V_MAX: f32 = MAX_OCTAVE as f32;
 
+#[cfg(feature = "verif-hooks")]
+impl Quantizer {
+    /// `(allowed bitfield, cached conversion)`
+    pub fn verif_state(&self) -> (u16, Conversion) {
+        (self.allowed, self.cached_conversion)
+    }
+
+    pub const VERIF_HYSTERESIS: f32 = HYSTERESIS;
+    pub const VERIF_ONE_OCTAVE_IN_MICROVOLTS: u32 = ONE_OCTAVE_IN_MICROVOLTS;
+    pub const VERIF_HALF_STEP_IN_MICROVOLTS: u32 = HALF_STEP_IN_MICROVOLTS;
+    pub const VERIF_MAX_OCTAVE: u32 = MAX_OCTAVE;
+    pub const VERIF_V_MAX: f32 = V_MAX;
+}
+
 #[cfg(test)]
 #[allow(non_snake_case)]
 mod tests {
